@@ -19,7 +19,8 @@ func TestCheck(t *testing.T) {
 	r.Rule("Grid: transport path (plain UDP against five servers with MaxUDPRespSize 512/1024/1232/4096/65535, TCP, DoT, DoQ, " +
 		"DoH h2 POST/GET, h1 POST, plain-HTTP POST, h3 in the thorough tier, DNSCrypt UDP/TCP) x advertised EDNS size " +
 		"{no OPT,0,511,512,513,1232,4096,65535} x request option subset (16 subsets of DO, padding, keep-alive, NSID 0/5/50/200, " +
-		"cookie, ECS) x handler response without / with a plain / with an odd OPT x handler response size (general sizes, " +
+		"cookie, ECS) x TTL field of the request OPT (plain, EDNS version 1/2/255, extended RCODE, Z bits, all three; sampled per cell and " +
+		"enumerated against every path and handler OPT kind in the boundary group opt-ttl) x handler response without / with a plain / with an odd OPT x handler response size (general sizes, " +
 		"limit-12..limit+1 around every effective UDP limit, sizes that make the response plus the OPT the server adds land " +
 		"on the limit, 65490..65536 around the stream maximum, 70000, 80000). Section mix, payload kind (big TXT, A with " +
 		"compressible / incompressible owners, NS with compressible rdata) and whether the handler propagates write errors " +
@@ -187,6 +188,12 @@ func TestCheck(t *testing.T) {
 	r.Require("boundary_group:stream-max-padding:"+famDoT, 5)
 	r.Require("boundary_group:stream-max-padding:"+famDoQ, 5)
 	r.Require("boundary_group:stream-max-padding:"+famDoH, 30)
+	for _, f := range []string{famUDP, famTCP, famDoT, famDoQ, famDoH, famDCUDP, famDCTCP} {
+		r.Require("boundary_group:opt-ttl:"+f, 20)
+	}
+	r.Require("opt_version_0:server-built-opt:request-version=1", 20)
+	r.Require("opt_version_0:server-built-opt:request-version=255", 10)
+	r.Require("opt_version_0:handler-opt=2:request-version=2", 5)
 	r.Require("keepalive_returned:"+famTCP, 5)
 	r.Require("keepalive_returned:"+famDoT, 5)
 	r.Require("padding_added:"+famDoT, 10)
